@@ -5,10 +5,14 @@
    correspondence of checks/C16.py: the library, whose handles are heap objects, must behave like this model
    (dump, parameters, names of both handles after every op; DUMPALL of the untouched handle before/after every
    edit, solve and free on the other one, in forked ASan children).
-   The reduced-precision half (QScopy_prob_mpq_dbl / _mpf) has no Coq statement in this branch: the conversion
-   model (coq/Float/Conv.v, to_double) is supplied centrally; checks/C16.py isolates the call site. *)
+   The reduced-precision half (QScopy_prob_mpq_dbl): the conversion of every finite number is modelled by
+   Float/Conv.v (to_double = mpq_get_d: truncation toward zero to 53 significant bits, fixed exponent -1074 in
+   the subnormal range); the theorems below give the bound of the property (within one unit in the last place,
+   never larger in magnitude, zero to zero, odd).  checks/C16.py compares every converted entry of the library's
+   dbl copy with the value of the extracted to_double.  The mpf half has no Coq model (checked in exact
+   arithmetic against the definition of truncation to the working precision). *)
 From Coq Require Import String Ascii ZArith.
-From QSX Require Import Store.Spec Store.SpecInv.
+From QSX Require Import Store.Spec Store.SpecInv Float.Conv.
 Local Open Scope Q_scope.
 
 (* faithfulness: the copy is observably the original (every query is a function of the stored problem),
@@ -42,6 +46,20 @@ Print Assumptions C16_copy_independent.
 Theorem C16_store_wf : forall M l, wf_store (srun M [] l).
 Proof. intros M l. apply srun_wf. apply wf_store_nil. Qed.
 Print Assumptions C16_store_wf.
+
+(* conversion to double: truncation toward zero, error below one unit in the last place; zero stays zero *)
+Theorem C16_to_double_within_ulp : forall q,
+  (Qabs (to_double q) <= Qabs q /\ Qabs (q - to_double q) < ulp_of q) \/ q == 0.
+Proof. exact to_double_bound. Qed.
+Print Assumptions C16_to_double_within_ulp.
+
+Theorem C16_to_double_zero : to_double 0 = 0.
+Proof. exact to_double_zero. Qed.
+Print Assumptions C16_to_double_zero.
+
+Theorem C16_to_double_odd : forall q, to_double (- q) == - to_double q.
+Proof. exact to_double_opp. Qed.
+Print Assumptions C16_to_double_odd.
 
 Example C16_example :
   let s := srun 1000 [] [SCreate 0 1; SOn 0 (NewCol 1 0 5 None); SCopy 0 1; SOn 0 (ChgObj 0 9); SFree 0] in
